@@ -226,8 +226,8 @@ func (m *Mutation) Bump(by int32) int { return m.N + int(by) }
 // Minus is bound to Mutation.diff with RegisterField; its parameters are in the opposite order of the GraphQL arguments.
 func (m *Mutation) Minus(b int, a int) int { called("Mutation.Minus"); return a - b }
 
-// FindTrack is bound to Mutation.find with RegisterField; its parameters are a rotation (not a swap) of the GraphQL arguments.
-func (m *Mutation) FindTrack(title string, year int, artist string, album string) string {
+// FindTrack is bound to Mutation.find with RegisterField; its first three parameters are a rotation of the GraphQL arguments (a permutation that is not its own inverse).
+func (m *Mutation) FindTrack(title string, artist string, album string, year int) string {
 	called("Mutation.FindTrack")
 	return fmt.Sprintf("artist=%s album=%s title=%s year=%d", artist, album, title, year)
 }
@@ -257,7 +257,7 @@ func NewRoot() (*ggql.Root, *Root, error) {
 	if err := root.RegisterField("Mutation", "diff", "Minus", "b", "a"); err != nil {
 		return nil, nil, err
 	}
-	if err := root.RegisterField("Mutation", "find", "FindTrack", "title", "year", "artist", "album"); err != nil {
+	if err := root.RegisterField("Mutation", "find", "FindTrack", "title", "artist", "album", "year"); err != nil {
 		return nil, nil, err
 	}
 	if err := root.RegisterField("Mutation", "renamed", "OtherName"); err != nil {
